@@ -43,7 +43,8 @@ REQUIRED = ["op:anchors", "op:chains", "op:core-span", "op:extent", "op:extender
             "monitor:DetectionRule.detect", "monitor:connect_locations", "monitor:Record.get_cds_features_within_location",
             "shape:chain-across-origin", "shape:boundary-distance", "shape:clipped-extent", "shape:wrapped-extent",
             "shape:superior-removal", "shape:extender-extension",
-            "history:ruleset-used-on-an-earlier-small-circular-record", "class:gene-with-hmmer-and-dynamic-hits"]
+            "history:ruleset-used-on-an-earlier-small-circular-record", "class:gene-with-hmmer-and-dynamic-hits",
+            "class:extender-chain-over-three-groups"]
 
 
 class Capture:
@@ -409,6 +410,21 @@ def check_world(ctx, world, results):
                     ctx.violate("kept-despite-covering-superior", facts_e, world)
                 elif dropped:
                     shapes.add("superior-removal")
+    by_rule_extenders = {r["name"]: r.get("extenders") for r in world["rules"]}
+    # ---- (b') the reported protoclusters of one rule are separate groups: no two of their cores share a gene (cores
+    #      that came to share one through EXTENDERS are one group)
+    for i, c in enumerate(final):
+        for other in final[i + 1:]:
+            if other.product != c.product:
+                continue
+            ctx.count("op:same-rule-cores-apart")
+            shared = [g for g in locs if ring.covers(ring.parts_of(c.core_location), ring.parts_of(locs[g]))
+                      and ring.covers(ring.parts_of(other.core_location), ring.parts_of(locs[g]))]
+            if shared:
+                ctx.violate("reported-cores-of-one-rule-share-no-gene",
+                            {"rule": c.product, "cores": [str(c.core_location), str(other.core_location)],
+                             "shared_genes": sorted(shared), "circular": circular, "L": length,
+                             "has_extenders": bool(by_rule_extenders.get(c.product))}, world)
     # ---- (e') superiors on the reported result: whatever the order of the internal stages, no reported protocluster
     #      may have all its core genes inside the reported core of a protocluster of one of its rule's superiors
     by_name = {r["name"]: r for r in world["rules"]}
@@ -487,12 +503,45 @@ def run_world(ctx, world):
     ctx.case(("world", world), nontrivial=nontrivial, sample=world if nontrivial else None)
 
 
+def extender_chain_world(rng):
+    """ three or four anchor groups, each further than the cutoff from the next, bridged pairwise by an extender gene
+        within the cutoff of both: the rule reports one protocluster over all of them """
+    cutoff = rng.choice([1000, 2000, 3000])
+    step = cutoff + rng.choice([300, 600, 900])
+    groups = rng.choice([3, 3, 4])
+    start = rng.choice([0, 100, 700])
+    genes, hits = {}, {}
+    for k in range(groups):
+        at = start + k * step
+        genes[f"a{k}"] = {"loc": {"parts": [[at, at + 200]], "strand": rng.choice([1, -1])}}
+        hits[f"a{k}"] = {"a": 30}
+        if k < groups - 1:
+            mid = at + 200 + (step - 400) // 2
+            genes[f"e{k}"] = {"loc": {"parts": [[mid, mid + 200]], "strand": rng.choice([1, -1])}}
+            hits[f"e{k}"] = {"b": 30}
+    used = start + (groups - 1) * step + 200
+    circular = rng.random() < 0.5
+    length = used + rng.choice([cutoff + 800, 3 * cutoff + 500])
+    if circular and rng.random() < 0.6:
+        far = used + (length - used) // 2
+        genes["far"] = {"loc": {"parts": [[far, far + 200]], "strand": 1}}
+        hits["far"] = {"a": 30}
+    rule = {"name": "r0", "cutoff_kb": cutoff // 1000, "ast": ["id", "a"], "nb_kb": rng.choice([1, 2]), "superiors": [],
+            "extenders": ["id", "b"]}
+    return {"L": length, "circular": circular, "genes": genes, "hits": hits, "rules": [rule], "multipliers": [1.0, 1.0]}
+
+
 def run(ctx):
     install_all(ctx)
     try:
         rng = ctx.rng("worlds")
-        for _ in ctx.cases(ctx.quota(2500, 200000)):
-            world = W.gen_world(rng)
+        chain_rng = ctx.rng("extender-chains")
+        for index in ctx.cases(ctx.quota(2500, 200000)):
+            if index % 12 == 11:
+                world = extender_chain_world(chain_rng)
+                ctx.count("class:extender-chain-over-three-groups")
+            else:
+                world = W.gen_world(rng)
             ctx.guard("harness-or-crash", world, run_world, ctx, world)
     finally:
         instrument.uninstall_all()
